@@ -12,6 +12,7 @@ mod eng_par;
 mod eng_viz;
 mod eng_ex;
 mod eng_exmodel;
+mod eng_domcyc;
 mod exgen;
 mod exgen_b;
 
@@ -55,6 +56,7 @@ fn main() {
         "viz" => eng_viz::run_viz(&a),
         "ex" => eng_ex::run_ex(&a),
         "exmodel" => eng_exmodel::run_exmodel(&a),
+        "domcyc" => eng_domcyc::run_domcyc(&a),
         e => { eprintln!("unknown engine {}", e); std::process::exit(2); }
     }
 }
